@@ -98,10 +98,14 @@ def check(run: Run) -> None:
 
     # ---------------- R3 lookup
     lk = m.find_func("lookup_query_metadata", in_module="func_adl.ast.meta_data")
-    finders = [c for c in m.classes.values() if c.parent_func is lk and m.is_visitor(c)]
+    from ..lib import used_visitor
+
+    finders = [used_visitor(m, ctx, lk)]
     if len(finders) != 1 or "generic_visit" not in finders[0].methods:
         raise AnalysisError("lookup_query_metadata no longer contains one visitor overriding generic_visit")
     fcls = finders[0]
+    extra = sorted(n for n in fcls.methods if n.startswith("visit"))
+    run.check(not extra, "C16.R3", fcls.methods["generic_visit"], fcls.node, "the finder overrides generic_visit only: every node kind goes through the metadata test", f"the finder also defines {extra}: nodes of that kind never reach generic_visit, so _q_metadata attached to them is invisible to the lookup (e.g. QMetaData right after MetaData)", "no visit_<Kind> methods")
     gv = fcls.methods["generic_visit"]
     fg = ctx.analysis(gv)
     gnode = ("param", gv.pos_params[1])
